@@ -151,7 +151,7 @@ def _directed(rng):
     return rec, ["directed-corridor"]
 
 
-def gen_conformant(rng, directed=0.25, contingent=0.3):
+def gen_conformant(rng, directed=0.25, contingent=0.38):
     """-> (recipe, features, uncertainty) with uncertainty =
     {"mode": "explicit", "states": [{"f(a,b)": bool, ...}, ...]} (keys are kstr(k) for k in ground_fluent_keys) or
     {"mode": "contingent", "oneof": [[[key, positive], ...]], "or": [...], "unknown": [key, ...]}"""
@@ -194,17 +194,17 @@ def gen_conformant(rng, directed=0.25, contingent=0.3):
         unc = {"mode": "contingent", "oneof": [], "or": [], "unknown": []}
         pool = list(keys)
         rng.shuffle(pool)
-        pool = pool[: rng.randint(1, min(4, len(pool)))]
+        pool = pool[: rng.randint(2, min(4, len(pool)))]
         x = rng.random()
         fs = ["contingent"]
-        if x < 0.4 and len(pool) >= 2:
+        if x < 0.35 and len(pool) >= 2:
             g = pool[: rng.randint(2, len(pool))]
             unc["oneof"].append([[list(k), rng.random() < 0.85] for k in g])
             fs.append("oneof")
             for k in pool[len(g) :]:
                 unc["unknown"].append(list(k))
                 fs.append("unknown")
-        elif x < 0.7 and len(pool) >= 2:
+        elif x < 0.75 and len(pool) >= 2:
             g = pool[: rng.randint(2, len(pool))]
             unc["or"].append([[list(k), rng.random() < 0.8] for k in g])
             fs.append("or")
